@@ -38,7 +38,14 @@ contains an anchor, LOCALE.
 
 Alphabet (DESIGN 4.3): the solvers' characters stop at U+2FFFF.  `alphabet_reduction`
 computes the membership signature of every code point w.r.t. the atomic classes of a
-query and checks that each signature occurring above U+2FFFF also occurs below.
+query and checks that each signature occurring above the cut-off also occurs at or below
+it.  The cut-off K is computed per query (the least one that works); it must be <= U+2FFFF,
+otherwise the query is undecided.  With K small (typically U+0669 for the citation
+patterns) the Unicode classes \\d \\s \\w shrink to a few ranges, which makes z3 ~10x faster;
+see class Alphabet for the argument.  The z3-level convenience functions at the end
+(`to_re`, `search_language`, ...) only clip classes at U+2FFFF; a caller that uses them in
+an emptiness query must run `alphabet_reduction` on the IRs (or use `ir_to_z3(ir, cache,
+alphabet_reduction([...]))`, as checks/c13.py does).
 """
 from __future__ import annotations
 
@@ -535,19 +542,16 @@ class Translator:
         raise Unsupported("regex node %s" % op)
 
 
-def _seq_product(tr: Translator, tree: list) -> Tuple[Lang, Lang]:
-    """Split the top-level sequence into L . R with L independent of e and R independent of s."""
+def _seq_product(tr: Translator, tree: list) -> Optional[Tuple[Lang, tuple, Lang]]:
+    """Split the top-level sequence into  left . mid . right  with left independent of e, mid
+    context-free and right independent of s (None if the anchors are not laid out like that)."""
     langs = [tr.node(n) for n in tree]
-    k = len(langs)
-    # largest prefix without dep_e
-    i = 0
-    while i < k and not langs[i].dep_e:
-        i += 1
-    if any(l.dep_s for l in langs[i:]):
-        # general case: one table
-        whole = lang_cat(langs)
-        return whole, Lang.pure(EPS)
-    return lang_cat(langs[:i]), lang_cat(langs[i:])
+    last_s = max([i for i, l in enumerate(langs) if l.dep_s], default=-1)
+    first_e = min([i for i, l in enumerate(langs) if l.dep_e], default=len(langs))
+    if last_s >= first_e:
+        return None
+    mid = mk_cat([l.ir() for l in langs[last_s + 1:first_e]])
+    return lang_cat(langs[:last_s + 1]), mid, lang_cat(langs[first_e:])
 
 
 _PRE = {S0: EPS, S1: ("cat", (ANY, FULL))}
@@ -557,15 +561,16 @@ _POST = {E0: EPS, EN: ("lit", "\n"), E1: OTHER_LANG}
 def search_ir(tree: list, flags: int, tables: Tables) -> tuple:
     """IR of L_search(pattern, flags): all texts in which re.search finds a match."""
     tr = Translator(tables, flags)
-    left, right = _seq_product(tr, tree)
-    if left.dep_e or right.dep_s:
+    split = _seq_product(tr, tree)
+    if split is None:
         # general table form
-        whole = left
+        whole = tr.seq(tree)
         terms = []
         for s in _S_ALL:
             for e in _E_ALL:
                 terms.append(mk_cat([_PRE[s], whole.get(s, e), _POST[e]]))
         return mk_alt(terms)
+    left, mid, right = split
     if left.dep_s:
         lpart = mk_alt([mk_cat([_PRE[s], left.get(s, E0)]) for s in _S_ALL])
     else:
@@ -574,7 +579,7 @@ def search_ir(tree: list, flags: int, tables: Tables) -> tuple:
         rpart = mk_alt([mk_cat([right.get(S0, e), _POST[e]]) for e in _E_ALL])
     else:
         rpart = mk_cat([right.get(S0, E0), FULL])
-    return mk_cat([lpart, rpart])
+    return mk_cat([lpart, mid, rpart])
 
 
 def fullmatch_ir(tree: list, flags: int, tables: Tables) -> tuple:
@@ -707,12 +712,58 @@ def ir_classes(x: tuple, acc: Optional[set] = None) -> set:
     return acc
 
 
-_ALPHA_CACHE: Dict[frozenset, Tuple[bool, str]] = {}
+class Alphabet:
+    """Result of the alphabet reduction for one query (DESIGN 4.3, with a computed cut-off).
+
+    Let sig(c) be the membership vector of code point c in the atomic classes of the query
+    (character classes from the CPython tables, and each literal character as a singleton).
+    K is the least code point such that every signature that occurs in 0..0x10FFFF occurs in
+    0..K.  The query is decided over the solver alphabet 0..0x2FFFF with every class A replaced by
+
+        A' = (A /\ [0,K])  \/  ((K, 0x2FFFF] if the top code point U+10FFFF is in A else {})
+
+    i.e. every solver character above K is given the signature of U+10FFFF (which occurs at or
+    below K).  Both c -> sig(c) on the real alphabet and the modified map on the solver alphabet
+    are onto the same set of signatures, and every regular operation (union, concatenation, star,
+    loop, intersection, complement, any-char) commutes with the inverse image of a length-
+    preserving letter-to-letter map that is total and onto; hence the Boolean combination is
+    empty over the real alphabet iff it is empty over the solver alphabet.  A model is mapped back
+    to a real string by replacing characters above K by `rep_top`, a code point <= K with the
+    signature of U+10FFFF.  The reduction fails (query undecided) iff K > 0x2FFFF, which
+    includes the case of a literal above U+2FFFF; with K = 0x2FFFF it is exactly DESIGN 4.3."""
+
+    def __init__(self, ok: bool, why: str, K: int = SOLVER_MAXCP, rep_top: Optional[int] = None,
+                 nclasses: int = 0, nsigs: int = 0):
+        self.ok, self.why, self.K, self.rep_top = ok, why, K, rep_top
+        self.nclasses, self.nsigs = nclasses, nsigs
+        self._memo: Dict[tuple, tuple] = {}
+
+    def map_set(self, rs) -> Tuple[Tuple[int, int], ...]:
+        """Ranges of A' over the solver alphabet."""
+        rs = tuple(rs)
+        got = self._memo.get(rs)
+        if got is None:
+            out = list(ranges_clip(rs, self.K))
+            if self.K < SOLVER_MAXCP and in_ranges(rs, MAXCP):
+                if out and out[-1][1] == self.K:
+                    out[-1] = (out[-1][0], SOLVER_MAXCP)
+                else:
+                    out.append((self.K + 1, SOLVER_MAXCP))
+            got = self._memo[rs] = tuple(out)
+        return got
+
+    def fix_model(self, text: str) -> str:
+        if self.rep_top is None:
+            return text
+        return "".join(ch if ord(ch) <= self.K else chr(self.rep_top) for ch in text)
 
 
-def alphabet_reduction(irs: Sequence[tuple]) -> Tuple[bool, str]:
-    """DESIGN 4.3.  True iff deciding emptiness over code points 0..0x2FFFF is the same as
-    deciding it over 0..0x10FFFF for a Boolean combination of the given languages."""
+IDENTITY_ALPHABET = Alphabet(True, "identity (classes clipped at U+2FFFF, no check)")
+_ALPHA_CACHE: Dict[frozenset, Alphabet] = {}
+
+
+def alphabet_reduction(irs: Sequence[tuple]) -> Alphabet:
+    """DESIGN 4.3, executed per query.  Returns an Alphabet; `.ok` False means undecided."""
     classes = set()
     for x in irs:
         ir_classes(x, classes)
@@ -720,29 +771,26 @@ def alphabet_reduction(irs: Sequence[tuple]) -> Tuple[bool, str]:
     if key in _ALPHA_CACHE:
         return _ALPHA_CACHE[key]
     cl = sorted(classes)
-    for rs in cl:
-        if len(rs) == 1 and rs[0][0] == rs[0][1] and rs[0][0] > SOLVER_MAXCP:
-            res = (False, "literal U+%04X lies above U+2FFFF" % rs[0][0])
-            _ALPHA_CACHE[key] = res
-            return res
-    cuts = {0, MAXCP + 1, SOLVER_MAXCP + 1}
+    cuts = {0, MAXCP + 1}
     for rs in cl:
         for lo, hi in rs:
             cuts.add(lo)
             cuts.add(hi + 1)
     pts = sorted(cuts)
-    low, high = set(), {}
+    first: Dict[tuple, int] = {}
+    top_sig = None
     for a in pts[:-1]:
         sig = tuple(in_ranges(rs, a) for rs in cl)
-        if a <= SOLVER_MAXCP:
-            low.add(sig)
-        else:
-            high.setdefault(sig, a)
-    missing = [a for sig, a in high.items() if sig not in low]
-    if missing:
-        res = (False, "signature of U+%04X (and %d more) does not occur at or below U+2FFFF" % (missing[0], len(missing) - 1))
+        first.setdefault(sig, a)
+        top_sig = sig
+    K = max(first.values())
+    if K > SOLVER_MAXCP:
+        res = Alphabet(False, "a membership signature first occurs at U+%04X, above U+2FFFF" % K)
     else:
-        res = (True, "%d classes, %d signatures below, %d above, all above occur below" % (len(cl), len(low), len(high)))
+        res = Alphabet(True, "%d classes, %d signatures, all occur at or below U+%04X; solver characters above it "
+                             "stand for the signature of U+10FFFF (representative U+%04X)" % (
+                                 len(cl), len(first), K, first[top_sig]),
+                       K=K, rep_top=first[top_sig], nclasses=len(cl), nsigs=len(first))
     _ALPHA_CACHE[key] = res
     return res
 
@@ -760,8 +808,8 @@ def smt_string(s: str) -> str:
     return '"' + "".join(out) + '"'
 
 
-def _set_smt(rs) -> str:
-    rs = ranges_clip(rs, SOLVER_MAXCP)
+def _set_smt(rs, alpha: "Alphabet") -> str:
+    rs = alpha.map_set(rs)
     if not rs:
         return "re.none"
     comp = ranges_complement(rs, SOLVER_MAXCP)
@@ -776,7 +824,8 @@ def _set_smt(rs) -> str:
     return u(rs)
 
 
-def ir_to_smtlib(x: tuple) -> str:
+def ir_to_smtlib(x: tuple, alpha: Optional["Alphabet"] = None) -> str:
+    alpha = alpha or IDENTITY_ALPHABET
     k = x[0]
     if k == "empty":
         return "re.none"
@@ -787,34 +836,34 @@ def ir_to_smtlib(x: tuple) -> str:
     if k == "full":
         return "re.all"
     if k == "set":
-        return _set_smt(x[1])
+        return _set_smt(x[1], alpha)
     if k == "lit":
         return "(str.to_re %s)" % smt_string(x[1])
     if k == "cat":
-        return "(re.++ " + " ".join(ir_to_smtlib(p) for p in x[1]) + ")"
+        return "(re.++ " + " ".join(ir_to_smtlib(p, alpha) for p in x[1]) + ")"
     if k == "alt":
-        return "(re.union " + " ".join(ir_to_smtlib(p) for p in x[1]) + ")"
+        return "(re.union " + " ".join(ir_to_smtlib(p, alpha) for p in x[1]) + ")"
     if k == "and":
-        return "(re.inter " + " ".join(ir_to_smtlib(p) for p in x[1]) + ")"
+        return "(re.inter " + " ".join(ir_to_smtlib(p, alpha) for p in x[1]) + ")"
     if k == "not":
-        return "(re.comp %s)" % ir_to_smtlib(x[1])
+        return "(re.comp %s)" % ir_to_smtlib(x[1], alpha)
     if k == "star":
-        return "(re.* %s)" % ir_to_smtlib(x[1])
+        return "(re.* %s)" % ir_to_smtlib(x[1], alpha)
     if k == "loop":
-        return "((_ re.loop %d %d) %s)" % (x[2], x[3], ir_to_smtlib(x[1]))
+        return "((_ re.loop %d %d) %s)" % (x[2], x[3], ir_to_smtlib(x[1], alpha))
     raise ValueError(k)
 
 
 def emptiness_smt2(members: Sequence[tuple], non_members: Sequence[tuple] = (), var: str = "x",
-                   not_containing: Sequence[str] = ()) -> str:
+                   not_containing: Sequence[str] = (), alpha: Optional["Alphabet"] = None) -> str:
     """SMT-LIB script: is there x in every `members` language, in no `non_members` language,
     and with none of `not_containing` as a substring (str.contains form of a case-sensitive
     ContainsAny)?"""
     lines = ["(set-logic QF_SLIA)", "(declare-const %s String)" % var]
     for m in members:
-        lines.append("(assert (str.in_re %s %s))" % (var, ir_to_smtlib(m)))
+        lines.append("(assert (str.in_re %s %s))" % (var, ir_to_smtlib(m, alpha)))
     for m in non_members:
-        lines.append("(assert (not (str.in_re %s %s)))" % (var, ir_to_smtlib(m)))
+        lines.append("(assert (not (str.in_re %s %s)))" % (var, ir_to_smtlib(m, alpha)))
     for s in not_containing:
         lines.append("(assert (not (str.contains %s %s)))" % (var, smt_string(s)))
     lines.append("(check-sat)")
@@ -824,8 +873,10 @@ def emptiness_smt2(members: Sequence[tuple], non_members: Sequence[tuple] = (), 
 
 # --------------------------------------------------------------------------- IR -> z3
 
-def ir_to_z3(x: tuple, cache: Optional[dict] = None):
+def ir_to_z3(x: tuple, cache: Optional[dict] = None, alpha: Optional["Alphabet"] = None):
+    """z3 term of the IR.  `cache` (IR -> term) may be shared between calls that use the same `alpha`."""
     import z3
+    alpha = alpha or IDENTITY_ALPHABET
     if cache is None:
         cache = {}
     S = z3.StringSort()
@@ -850,7 +901,7 @@ def ir_to_z3(x: tuple, cache: Optional[dict] = None):
         elif k == "full":
             r = z3.Full(RS)
         elif k == "set":
-            rs = ranges_clip(x[1], SOLVER_MAXCP)
+            rs = alpha.map_set(x[1])
             if not rs:
                 r = z3.Empty(RS)
             else:
